@@ -695,12 +695,20 @@ class Env:
                     raise Unsupported(f"modifies {m}: unsupported ghost value")
             else:
                 raise Unsupported(f"modifies clause {m}")
+        # state changes the contract describes operationally (e.g. "the held transport is closed and forgotten")
+        eff = getattr(con, "effects", None)
+        if eff is not None:
+            if isinstance(eff, staticmethod):
+                eff = eff.__func__
+            eff(it, ns)
         ret = getattr(con, "returns", None)
         if ret is None:
             result = None
         elif isinstance(ret, Sort):
             result = it.fresh(ret, "ret_" + fn.__name__)
         else:
+            if isinstance(ret, staticmethod):
+                ret = ret.__func__
             result = ret(it, ns)
         ns2 = dict(ns)
         ns2["result"] = result
@@ -722,9 +730,6 @@ class Env:
         for f in con.clause_list("ensures"):
             r = eval_clause(it, f, ns2)
             ctx.assume(ops.truth_term(r))
-        eff = getattr(con, "effects", None)
-        if eff is not None:
-            eff(it, ns2)
         ctx.trace.append(("call", con.target, {k: snapshot(v) for k, v in ns.items()}, result))
         import inspect as _inspect
 
